@@ -98,6 +98,102 @@ theorem addAttacker_rejects_duplicate_id (s : St) (nm : String) (k : Int) (e r :
     show (dget s.attIdx k).isSome = true
     unfold getAttackerById at h; rw [h]; rfl)
 
+/-! ### the repaired `add_node` / `add_attacker` (b507c7f, b653290) -/
+
+/-- `add_attacker` is atomic: it is rejected iff the id is in use or some id of `reached` / `entry` names no node —
+a condition on the state the call starts with —, and a rejected call changes nothing: no node has been
+compromised, no counter moved, the next step of the history sees the state as it was -/
+theorem rejected_add_attacker_changes_nothing (s : St) (nm : String) (id : Option Int) (e r : List Int) :
+    ((∃ err, addAttacker s nm id e r = .error err) ↔
+      ((getAttackerById s (id.getD s.nextAtt)).isSome = true ∨
+        (∃ i ∈ r, getNodeById s i = none) ∨ (∃ i ∈ e, getNodeById s i = none))) ∧
+    (∀ err, addAttacker s nm id e r = .error err → applyOp s (.addAttacker nm id e r) = s) := by
+  refine ⟨?_, fun err h => by show okOr s (addAttacker s nm id e r) = s; rw [h]; rfl⟩
+  rw [addAttacker_eq]
+  show _ ↔ ((dget s.attIdx (id.getD s.nextAtt)).isSome = true ∨ _)
+  have hall : ∀ l : List Int, l.all (fun i => (getNodeById s i).isSome) = false ↔ ∃ i ∈ l, getNodeById s i = none := by
+    intro l
+    rw [← Bool.not_eq_true, List.all_eq_true]
+    constructor
+    · intro h
+      refine Classical.byContradiction fun hn => h fun i hi => ?_
+      cases hg : getNodeById s i with
+      | some v => rfl
+      | none => exact absurd ⟨i, hi, hg⟩ hn
+    · rintro ⟨i, hi, hg⟩ h
+      have := h i hi
+      rw [hg] at this; cases this
+  by_cases hd : (dget s.attIdx (id.getD s.nextAtt)).isSome = true
+  · rw [if_pos hd]; exact ⟨fun _ => Or.inl hd, fun _ => ⟨_, rfl⟩⟩
+  rw [if_neg hd]
+  cases hr : r.all (fun i => (getNodeById s i).isSome) with
+  | false =>
+    exact ⟨fun _ => Or.inr (Or.inl ((hall r).1 hr)), fun _ => ⟨.attackGraphException, by simp⟩⟩
+  | true =>
+    cases he : e.all (fun i => (getNodeById s i).isSome) with
+    | false =>
+      exact ⟨fun _ => Or.inr (Or.inr ((hall e).1 he)), fun _ => ⟨.attackGraphException, by simp⟩⟩
+    | true =>
+      refine ⟨fun ⟨err, h⟩ => by simp at h, ?_⟩
+      rintro (h | h | h)
+      · exact absurd h hd
+      · rw [(hall r).2 h] at hr; cases hr
+      · rw [(hall e).2 h] at he; cases he
+
+/-- the same object twice: `add_node` / `add_attacker` of an object that is part of the graph is rejected with
+`ValueError`, whatever id (and node ids) are passed, and the graph stays as it is -/
+theorem add_same_object_twice_rejected (s : St) (h : Consistent s) :
+    (∀ r ∈ s.nodes, ∀ id, addNodeObj s r id = .error .valueError ∧ applyOp s (.addNodeObj r id) = s) ∧
+    (∀ a ∈ s.attackers, ∀ id e r, addAttackerObj s a id e r = .error .valueError ∧
+      applyOp s (.addAttackerObj a id e r) = s) :=
+  ⟨fun r hr id => ⟨addNodeObj_member_rejected s r id h hr, applyOp_addNodeObj s r id h⟩,
+   fun a ha id e r => ⟨addAttackerObj_member_rejected s a id e r h ha, applyOp_addAttackerObj s a id e r h⟩⟩
+
+/-- … in particular the object that `add_node` / `add_attacker` has just registered -/
+theorem add_then_add_again_rejected {s s' : St} (h : Consistent s) :
+    (∀ (o : NodeObj) id id', addNode s o.detached id = .ok s' → addNodeObj s' s.nfresh id' = .error .valueError) ∧
+    (∀ nm id e r id' e' r', addAttacker s nm id e r = .ok s' →
+      addAttackerObj s' s.afresh id' e' r' = .error .valueError) := by
+  refine ⟨fun o id id' hok => ?_, fun nm id e r id' e' r' hok => ?_⟩
+  · have hc := addNode_consistent h hok
+    obtain ⟨_, rfl⟩ := addNode_ok hok
+    exact addNodeObj_member_rejected _ _ id' hc (List.mem_append_right _ (List.mem_singleton.2 rfl))
+  · have hc := addAttacker_consistent' h hok
+    have hm : s.afresh ∈ s'.attackers := by
+      rw [addAttacker_eq] at hok
+      split at hok
+      · cases hok
+      split at hok
+      · cases hok
+      · injection hok with hok
+        rw [← hok]
+        exact List.mem_append_right _ (List.mem_singleton.2 rfl)
+    exact addAttackerObj_member_rejected _ _ id' e' r' hc hm
+
+/-- the defect that b507c7f repaired, on the order of effects the code had before (`addAttackerPreFix`): in the
+consistent graph with one node (id 0), `add_attacker(reached_attack_steps = [0, 5])` compromises node 0, then
+raises `AttackGraphException` for the unknown id 5 — and leaves node 0 compromised by an attacker that is not
+part of the graph: the state after the rejected call is not `Consistent` -/
+theorem pre_fix_add_attacker_leaves_stray_attacker :
+    let s := applyOp {} (.addNode {} none)
+    Consistent s ∧
+    (addAttackerPreFix s "a" none [] [0, 5]).2 = some .attackGraphException ∧
+    ((addAttackerPreFix s "a" none [] [0, 5]).1.nobj 0).compBy = [0] ∧
+    (addAttackerPreFix s "a" none [] [0, 5]).1.attackers = [] ∧
+    ¬ Consistent (addAttackerPreFix s "a" none [] [0, 5]).1 ∧
+    addAttacker s "a" none [] [0, 5] = .error .attackGraphException := by
+  refine ⟨applyOp_consistent _ _ init_consistent, by decide, by decide, by decide, fun h => ?_, rfl⟩
+  have := h.comp.compBy_mem 0 (by decide) 0 (by decide)
+  revert this; decide
+
+/-- … and the other half of that defect: a call rejected for an id in use had already changed the id of the
+attacker object -/
+theorem pre_fix_add_attacker_changes_id_of_rejected :
+    let s := applyOp {} (.addAttacker "x" none [] [])
+    (addAttackerPreFix s "a" (some 0) [] []).2 = some .valueError ∧
+    ((addAttackerPreFix s "a" (some 0) [] []).1.aobj 1).id = 0 ∧ (s.aobj 0).id = 0 := by
+  decide
+
 theorem removeAttacker_consistent (s : St) (a : Nat) (h : Consistent s) (ha : a ∈ s.attackers) :
     Consistent (removeAttacker s a) := removeAttacker_consistent' s a h ha
 
